@@ -72,7 +72,7 @@ def main():
                     'unchanged; both serialisations identical',
             'bound': '%d operations' % r['evaluations'],
             'evaluations': r['evaluations'],
-            'distinct_nontrivial': r['evaluations']})
+            'distinct_nontrivial': r.get('distinct_nontrivial', 0)})
         if r['witness']:
             chk.report_violation('bounded.histories',
                                  {'witness': r['witness']}, True,
